@@ -36,6 +36,7 @@ def main(argv=None) -> int:
             os.unlink(ev_path)
     except OSError:
         pass
+    mod = None
     try:
         mod = importlib.import_module('contracts.' + pid)
         mod.build(ctx)
@@ -51,10 +52,14 @@ def main(argv=None) -> int:
                 mod.thorough(ctx)
         return core.finish(ctx, cmd)
     except core.Undecided as e:
+        if _witness_instead(ctx, mod, 'contracts no longer apply to the code (%s)' % e, cmd):
+            return 1
         print('UNDECIDED property=%s %s' % (pid, e))
         _fallback_evidence(ctx, cmd, 'undecided: %s' % e)
         return 2
     except core.CheckerBug as e:
+        if _witness_instead(ctx, mod, 'contracts no longer apply to the code (%s)' % e, cmd):
+            return 1
         print('CHECKER-ERROR property=%s %s' % (pid, e))
         _fallback_evidence(ctx, cmd, 'checker error: %s' % e)
         return 3
@@ -65,7 +70,30 @@ def main(argv=None) -> int:
         return 3
 
 
-def _fallback_evidence(ctx, cmd, why):
+def _witness_instead(ctx, mod, why, cmd):
+    """The code changed so much that the contracts cannot be applied (anchor moved, loop structure changed, syntax outside the
+    subset): that alone is UNDECIDED.  If the property's native witness search finds a failing input on the real code, the
+    property is violated whatever the contracts say - report it (refutations that replay on the real code are always sound)."""
+    ws = getattr(mod, 'native_witness', None) if mod is not None else None
+    if ws is None:
+        return False
+    try:
+        r = ws(ctx)
+    except Exception:
+        traceback.print_exc()
+        return False
+    if not (isinstance(r, dict) and r.get('confirmed')):
+        return False
+    os.makedirs(os.path.join(core.VERIF, 'replays'), exist_ok=True)
+    path = os.path.join(core.VERIF, 'replays', '%s-witness-without-contract.json' % ctx.pid)
+    json.dump({'property': ctx.pid, 'obligation': '%s/contracts-not-applicable' % ctx.pid, 'why_no_obligation': why, 'replay': r}, open(path, 'w'), indent=1, default=str)
+    print('VIOLATION property=%s replay=%s' % (ctx.pid, path))
+    print('  %s; failing input found by the native search on the real code: %s' % (why[:200], json.dumps(r.get('input', r.get('what')), default=str)[:300]))
+    _fallback_evidence(ctx, cmd, 'violation by native witness; %s' % why, violations=1)
+    return True
+
+
+def _fallback_evidence(ctx, cmd, why, violations=0):
     ev = {
         'property_id': ctx.pid,
         'tier': ctx.tier,
@@ -74,7 +102,7 @@ def _fallback_evidence(ctx, cmd, why):
         'coverage': {'explanation': why, 'checker_cmd': cmd},
         'assumptions': ctx.assumptions,
         'wall_s': round(time.time() - ctx.t0, 3),
-        'violations': 0,
+        'violations': violations,
     }
     os.makedirs(core.EVIDENCE_DIR, exist_ok=True)
     json.dump(ev, open(os.path.join(core.EVIDENCE_DIR, ctx.pid + '.json'), 'w'), indent=1)
